@@ -22,7 +22,8 @@
       on direct aliases of them;
     * `display_is_read_only`: no block guarded by `iprint`/`logger`, and no display helper,
       assigns a name that is read elsewhere, modifies anything in place, or transfers control —
-      so `iprint` and `logger` cannot influence a numerical output.
+      so `iprint` and `logger` cannot influence a numerical output; `display_evaluates_nothing`: nor does
+      such code call anything that can reach a user callable (no evaluation is made for a message).
   (3) Determinism: the driver model `minimize` is a function of its inputs and of the answers
   of the user's callables and of the numerical kernels — `run_is_a_function` — and the
   correspondence check replays every explored run (with `iprint` and `logger` drawn at random,
@@ -98,6 +99,12 @@ read elsewhere, nothing is modified in place there, no control transfer happens 
 display helpers do not write into their arguments. -/
 theorem display_is_read_only :
     ∀ d ∈ display, d.leaks = [] ∧ d.writes = [] ∧ d.jumps = [] := by decide
+
+/-- **C14 (2c′)** display code evaluates nothing: no block guarded by `iprint`/`logger` and no display helper calls a function that
+can reach a user callable (conservative name-based call graph, nested functions such as the line search's `phi` included) — what is
+displayed costs no evaluation, so the evaluation cap of a line search (C11) and the counters (C05, C15) do not depend on the display
+level either. -/
+theorem display_evaluates_nothing : ∀ d ∈ display, d.evals = [] := by decide
 
 /-- **C14 (2d)** `minimize_lbfgsb` performs no in-place modification of `x0`, `bounds`, `checkpoint`,
 `args`, nor of a name bound directly to one of them or to one of the checkpoint's arrays (the
